@@ -5,8 +5,15 @@ set -u
 patch="$1"; shift
 cd /verif
 if [ -n "$(git -C /repo status --porcelain --untracked-files=no)" ]; then echo "/repo is dirty, refusing"; exit 3; fi
-if ! git -C /repo apply --check "$patch" 2>/dev/null; then echo "PATCH-DOES-NOT-APPLY $patch"; exit 3; fi
-git -C /repo apply "$patch"
+if git -C /repo apply --check "$patch" 2>/dev/null; then
+  git -C /repo apply "$patch"
+elif git -C /repo apply --3way "$patch" >/dev/null 2>&1 && [ -z "$(git -C /repo diff --name-only --diff-filter=U)" ]; then
+  git -C /repo reset -q   # keep the merged result in the working tree only
+  echo "(patch applied with 3-way merge)"
+else
+  git -C /repo checkout -- . 2>/dev/null; git -C /repo reset -q --hard HEAD
+  echo "PATCH-DOES-NOT-APPLY $patch"; exit 3
+fi
 trap 'git -C /repo checkout -- . ; git -C /repo clean -fdq -e target -e Cargo.lock >/dev/null 2>&1' EXIT
 for id in "$@"; do
   out=$(./check "$id" "${TIER:-quick}" ${EXTRA:-} 2>&1); code=$?
